@@ -9,7 +9,9 @@ from common import (Infra, go_must_pass, go_test, harness_overlay, read_ndjson, 
 PKG = "internal/index"
 
 EVENTS = [[], [("c", "AA")], [("s", "BB")], [("c", "AA"), ("s", "BB")], [("s", "BB"), ("c", "AA")],
-          [("c", "AA"), ("s", "BB"), ("c", "CC")], [("c", "CC"), ("s", "BB"), ("c", "AA")], [("c", "BB"), ("c", "AA"), ("s", "BB"), ("c", "AA")]]
+          [("c", "AA"), ("s", "BB"), ("c", "CC")], [("c", "CC"), ("s", "BB"), ("c", "AA")], [("c", "BB"), ("c", "AA"), ("s", "BB"), ("c", "AA")],
+          # four and five chunks: chains whose fourth element has alternatives (data:, or-groups)
+          [("c", "AA"), ("s", "BB"), ("c", "CC"), ("c", "BB")], [("c", "AA"), ("s", "BB"), ("c", "CC"), ("s", "BB"), ("c", "AA")]]
 # strength-2 covering array (Hadamard 8) over 7 two-level factors
 ROWS = ["0000000", "1111111", "0101010", "1010101", "0011001", "1100110", "0110011", "1001100"]
 
